@@ -61,7 +61,7 @@ type c14Case struct {
 
 const c14Rule = "case = raw-socket producer configuration (tcp | udp, retry-max 0..4) + 1..300 messages (1 octet..48 KiB, in a quarter of the tcp cases some extended to exactly 255..131073 octets on and next to the 8-, 12-, 16- and 17-bit marks; JSON-like text rich in %d %s %% %! verbs, quotes, UTF-8 and arbitrary non-newline octets, each tagged with its index; in a quarter of the cases handed over as adjacent sub-slices of one buffer instead of private copies: the producer must not touch memory beyond the message, and the buffer must be unchanged afterwards) " +
 	"+ fault plan (tcp): none, or 1..3 breaks (after message i the sink closes gracefully | resets the connection, optionally stops listening for a drawn downtime; with two or more breaks the feeder is paced so that later breaks still find traffic), or an outage plan (2..4 outages on one producer, each costing a drawn 2..140 messages of a paced feeder, delivered traffic in between), or a stall plan (the sink stops reading while 30..60 messages of 48 KiB follow, so that a write blocks half-way, then resets), or a slow-sink plan (the sink stops reading for 0.3..5.5 s (thorough: ..31 s) and then goes on, while 1200..2500 messages keep the producer's queue full: the no-fault oracle applies); with a fault plan the producer may have been up and idle for 0.4..5.5 s (thorough: ..31 s) before traffic starts; the real producer.NewProducer(\"rawSocket\").Run() writes to a sink owned by the harness; " +
-	"oracle without fault = the sink's byte stream is exactly concat(message + newline) (udp: one datagram per message, paced); with faults (every break index is a fault point) = the complete lines received over all connections are " +
+	"oracle without fault = the sink's byte stream is exactly concat(message + newline) (udp: one datagram per message, paced; in a third of the udp cases the sink's socket is closed for 5..150 ms and bound again to the same port: delivery must resume within retry-max+4 messages handed over one at a time, every datagram that arrives is exactly its message); with faults (every break index is a fault point) = the complete lines received over all connections are " +
 	"byte-identical input messages with strictly increasing indices (no duplicate, no corruption, no reordering), and once the sink is reachable again probe messages handed over one at a time resume delivery within retry-max+4 probes with nothing missing afterwards; " +
 	"non-trivial = a message contains '%' or is >= 4 KiB, or the plan has a break; distinct by hash"
 
@@ -101,6 +101,11 @@ func genC14Payload(t *rapid.T) []byte {
 
 func genC14(t *rapid.T) c14Case {
 	c := genC14Plan(t)
+	if c.Protocol == "udp" && rapid.IntRange(0, 2).Draw(t, "udpoutage") == 0 {
+		// the datagram sink goes away for a while (its socket is closed, the port answers "unreachable") and comes
+		// back on the same port
+		c.Breaks = []c14Break{{After: rapid.IntRange(1, len(c.Msgs)).Draw(t, "udpafter"), Kind: "udp-down", DownMS: rapid.SampledFrom([]int{5, 20, 60, 150}).Draw(t, "udpdownms")}}
+	}
 	c.Arena = rapid.IntRange(0, 3).Draw(t, "arena") == 0 && c.Protocol == "tcp"
 	return c
 }
@@ -678,6 +683,95 @@ func runC14(c *c14Case) (v verdict, sig string, err error) {
 	return v, "", nil
 }
 
+// runC14UDPOutage: the sink's socket is closed after message After-1 for DownMS (messages handed over meanwhile may
+// be lost), then bound again to the same port; delivery must resume within retry-max+4 messages and lose nothing
+// afterwards; every datagram that arrives is exactly the message it was handed over as.
+func runC14UDPOutage(c *c14Case, v verdict, pc net.PacketConn, ch chan []byte) (verdict, string, error) {
+	b := c.Breaks[0]
+	addr := pc.LocalAddr().String()
+	msgs := make([][]byte, 0, len(c.Msgs)+c.RetryMax+10)
+	for i, pl := range c.Msgs {
+		msgs = append(msgs, c14Message(i, pl))
+	}
+	for k := 0; k < c.RetryMax+10; k++ {
+		msgs = append(msgs, c14Message(len(msgs), []byte("probe%d")))
+	}
+	buf := make([]byte, 70000)
+	down, everDown, resumed := false, false, false
+	var downUntil time.Time
+	lostAfter, downMsgs := 0, 0
+	defer func() { pc.Close() }()
+	for i, m := range msgs {
+		if i == b.After && !everDown {
+			pc.Close()
+			down, everDown = true, true
+			downUntil = time.Now().Add(time.Duration(b.DownMS) * time.Millisecond)
+		}
+		ch <- append([]byte{}, m...)
+		if down {
+			time.Sleep(2 * time.Millisecond)
+			downMsgs++
+			// the sink stays away for DownMS; at most 20 messages are handed over meanwhile (and enough are kept for
+			// the time after its return)
+			if downMsgs >= 20 || len(msgs)-i-1 <= c.RetryMax+8 {
+				if d := time.Until(downUntil); d > 0 {
+					time.Sleep(d)
+				}
+			}
+			if time.Now().After(downUntil) {
+				var e error
+				for try := 0; try < 100; try++ {
+					if pc, e = net.ListenPacket("udp", addr); e == nil {
+						break
+					}
+					time.Sleep(10 * time.Millisecond)
+				}
+				if e != nil {
+					return v, "", fmt.Errorf("harness: cannot bind the sink's port again: %v", e)
+				}
+				down = false
+				// let the producer finish the message in hand before the next one counts as "after the outage"
+				time.Sleep(20 * time.Millisecond)
+				pc.SetReadDeadline(time.Now().Add(30 * time.Millisecond))
+				for {
+					if _, _, err := pc.ReadFrom(buf); err != nil {
+						break
+					}
+				}
+			}
+			continue
+		}
+		wait := 5 * time.Second
+		if everDown && !resumed {
+			wait = 400 * time.Millisecond
+		}
+		pc.SetReadDeadline(time.Now().Add(wait))
+		n, _, err := pc.ReadFrom(buf)
+		if err != nil {
+			if everDown && !resumed {
+				lostAfter++
+				if lostAfter > c.RetryMax+3 {
+					return v, "no-resume", fmt.Errorf("udp sink away for %d ms and back on the same port: %d messages handed over one at a time since then, none delivered (retry-max %d)", b.DownMS, lostAfter, c.RetryMax)
+				}
+				continue
+			}
+			return v, "udp-missing", fmt.Errorf("message %d (%d octets) was not delivered as a datagram within 5 s (sink outage before: %v): %v", i, len(m), everDown, err)
+		}
+		want := append(append([]byte{}, m...), '\n')
+		if !bytes.Equal(buf[:n], want) {
+			return v, "udp-content", fmt.Errorf("datagram for message %d differs from the message handed over: %s", i, firstDiff(buf[:n], want))
+		}
+		if everDown {
+			resumed = true
+		}
+	}
+	v.label(true, "udp-sink-outage")
+	if everDown && !resumed {
+		return v, "no-resume", fmt.Errorf("udp sink away for %d ms and back on the same port: delivery never resumed", b.DownMS)
+	}
+	return v, "", nil
+}
+
 func hasLine(s *c14Sink, m []byte) bool {
 	s.mu.Lock()
 	defer s.mu.Unlock()
@@ -743,6 +837,9 @@ func runC14UDP(c *c14Case, v verdict) (verdict, string, error) {
 		}
 	}()
 	buf := make([]byte, 70000)
+	if len(c.Breaks) == 1 && c.Breaks[0].Kind == "udp-down" {
+		return runC14UDPOutage(c, v, pc, ch)
+	}
 	for i, pl := range c.Msgs {
 		m := c14Message(i, pl)
 		ch <- append([]byte{}, m...)
